@@ -25,7 +25,7 @@ def describe(tier):
 
 
 def shards(tier, seed):
-    ts = universe.universe(tier)
+    ts = universe.universe(tier, "all+3" if tier == "thorough" else "all")
     out = [("cons", c) for c in cons.chunk(ts, 64 if tier == "quick" else 192)]
     vm = ["ramp"] if tier == "quick" else ["ramp", "extreme"]
     out += [("hist", t, v, p) for t in universe.rh(tier) for v in vm for p in ("dirtyhole", "dirtyhole2")]
